@@ -15,8 +15,8 @@ CONSTANTS
 
 def plan(tier):
     if tier == "quick":
-        return [("wide", 3), ("tabs", 3), ("core", 4), ("defs", 3), ("html", 3)]
-    return [("wide", 4), ("tabs", 4), ("core", 6), ("defs", 4), ("html", 4)]
+        return [("wide", 3), ("tabs", 3), ("core", 4), ("defs", 3), ("html", 3), ("coremixed", 3), ("defscrlf", 2), ("htmlcr", 2)]
+    return [("wide", 4), ("tabs", 4), ("core", 6), ("defs", 4), ("html", 4), ("coremixed", 4), ("corecr", 5), ("defscrlf", 3), ("htmlcr", 3)]
 
 
 def lemma_job(name, invs, tier):
@@ -29,7 +29,7 @@ def run_oracle(ctx):
     """Generate all documents over the shape sets, replay each into the real parser. Adds candidates."""
     ctx.build_harness()
     jobs = [dict(module="Blocks", cfg_text=cfg(s, n), name="Blocks_%s%d" % (s, n), workers=8, timeout=6000) for s, n in plan(ctx.tier)]
-    rs = ctx.tlc_many(jobs, parallel=2)
+    rs = ctx.tlc_many(jobs, parallel=3)
     rc, res, _ = ctx.harness(["blocks"] + [r["out"] for r in rs], timeout=6000)
     ctx.absorb(res)
     conf = confirm_with(ctx, "blocks")
